@@ -34,6 +34,14 @@ type World interface {
 	Canon() string
 }
 
+// Cloner is implemented by worlds that can be copied; Checkpoint reports
+// whether the current state is expensive to reach (e.g. right after a macro
+// operation) and should be kept so that replays can start from a copy of it.
+type Cloner interface {
+	Clone() World
+	Checkpoint() bool
+}
+
 // Closer is implemented by worlds that hold resources.
 type Closer interface{ Close() }
 
@@ -185,6 +193,7 @@ func Explore(cfg Config, res *core.Result) core.Sub {
 		frontier = next
 		depth++
 	}
+	ckpts.Delete(cfg.Name)
 	exhaustive := !capped && len(frontier) == 0
 	bound := fmt.Sprintf("depth<=%d", cfg.MaxDepth)
 	note := ""
@@ -223,11 +232,55 @@ func closeWorld(w World) {
 	}
 }
 
+type ckpt struct {
+	mu sync.Mutex
+	m  map[string]World
+}
+
+var ckpts sync.Map // config name -> *ckpt
+
+func pathKey(path []Op) string {
+	b, _ := json.Marshal(path)
+	return string(b)
+}
+
 func replay(cfg Config, path []Op) (World, *core.Violation) {
-	w := cfg.Fresh()
-	for _, op := range path {
-		if v := safeApply(w, op); v != nil {
+	var w World
+	from := 0
+	var cp *ckpt
+	if c, ok := ckpts.Load(cfg.Name); ok {
+		cp = c.(*ckpt)
+		cp.mu.Lock()
+		for n := len(path); n > 0; n-- {
+			if n > 3 {
+				n = 3
+			}
+			if base, ok := cp.m[pathKey(path[:n])]; ok {
+				w = base.(Cloner).Clone()
+				from = n
+				break
+			}
+		}
+		cp.mu.Unlock()
+	}
+	if w == nil {
+		w = cfg.Fresh()
+	}
+	for i := from; i < len(path); i++ {
+		if v := safeApply(w, path[i]); v != nil {
 			return w, v
+		}
+		if c, ok := w.(Cloner); ok && i < 3 && c.Checkpoint() {
+			if cp == nil {
+				x, _ := ckpts.LoadOrStore(cfg.Name, &ckpt{m: map[string]World{}})
+				cp = x.(*ckpt)
+			}
+			k := pathKey(path[:i+1])
+			cp.mu.Lock()
+			if _, ok := cp.m[k]; !ok && len(cp.m) < 64 {
+				cp.m[k] = c.Clone()
+			}
+			cp.mu.Unlock()
 		}
 	}
 	return w, nil
